@@ -125,16 +125,16 @@ func ruleGFConstruction(pkgs ...string) func(c *Ctx) {
 				key := fmt.Sprintf("%s/NewGaloisField#%d", c.P.FuncName(fn), k)
 				pk := shortName(fn.Pkg.Pkg.Path())
 				check := func(key string, pp, size, base int64) {
-				ok2 := size > 1 && size&(size-1) == 0 && polyDegree(pp) == bits.Len64(uint64(size))-1 && isPrimitive(pp) && (base == 0 || base == 1)
-				exp := "primitive polynomial of degree log2(size), base 0/1"
-				if w, has := want[pk][size]; has {
-					exp = fmt.Sprintf("pp=%#x size=%d base=%d", w, size, wantBase[pk])
-					ok2 = ok2 && pp == w && base == wantBase[pk]
-				} else if _, known := want[pk]; known {
-					ok2 = false
-					exp = "a field size the symbology uses"
-				}
-				c.Check(R, key, call.Pos(), ok2, exp, fmt.Sprintf("pp=%#x size=%d base=%d primitive=%v", pp, size, base, isPrimitive(pp)))
+					ok2 := size > 1 && size&(size-1) == 0 && polyDegree(pp) == bits.Len64(uint64(size))-1 && isPrimitive(pp) && (base == 0 || base == 1)
+					exp := "primitive polynomial of degree log2(size), base 0/1"
+					if w, has := want[pk][size]; has {
+						exp = fmt.Sprintf("pp=%#x size=%d base=%d", w, size, wantBase[pk])
+						ok2 = ok2 && pp == w && base == wantBase[pk]
+					} else if _, known := want[pk]; known {
+						ok2 = false
+						exp = "a field size the symbology uses"
+					}
+					c.Check(R, key, call.Pos(), ok2, exp, fmt.Sprintf("pp=%#x size=%d base=%d primitive=%v", pp, size, base, isPrimitive(pp)))
 				}
 				n := NewNormer(c.P)
 				n.FoldTables = true
